@@ -1,1 +1,287 @@
 // Kani harnesses compiled inside rs-matter/src/transport/proto_hdr.rs (module `verif_kani`).
+
+mod c03 {
+    use super::*;
+
+    use crate::crypto::backend::dummy::DummyCrypto;
+    use crate::crypto::{AEAD_CANON_KEY_LEN, AEAD_NONCE_LEN, AEAD_TAG_LEN};
+    use crate::transport::verif_kani::c03::mock::{ref_nonce, MockCrypto};
+
+    const EXCH_FLAGS_VALID: u8 = 0x1f;
+
+    /// Encoded length of a protocol header with exchange flags `f` (reference: 6 fixed bytes,
+    /// 2 for the vendor id iff V, 4 for the acknowledged counter iff A).
+    fn ref_len(f: u8) -> usize {
+        6 + if f & 0x10 != 0 { 2 } else { 0 } + if f & 0x02 != 0 { 4 } else { 0 }
+    }
+
+    fn any_hdr() -> ProtoHdr {
+        let f: u8 = kani::any();
+        kani::assume(f & !EXCH_FLAGS_VALID == 0);
+        ProtoHdr {
+            exch_id: kani::any(),
+            exch_flags: ExchFlags::from_bits_retain(f),
+            proto_id: kani::any(),
+            proto_opcode: kani::any(),
+            proto_vendor_id: kani::any(),
+            ack_msg_ctr: kani::any(),
+        }
+    }
+
+    /// decode(encode(h)) == h on every observable field, for every flag combination and field
+    /// value; exact length; decoder consumes exactly the header and leaves the payload.
+    // TIER: quick
+    // KIND: complete
+    #[kani::proof]
+    fn c03_proto_hdr_roundtrip() {
+        let h = any_hdr();
+        let f = h.exch_flags.bits();
+
+        const CAP: usize = ProtoHdr::MAX_LEN + 4;
+        let mut out = [0u8; CAP];
+        let n = {
+            let mut wb = WriteBuf::new(&mut out[..ProtoHdr::MAX_LEN]);
+            let r = h.encode(&mut wb);
+            kani::assert(r.is_ok(), "C03.proto.encode_total_on_max_len");
+            wb.as_slice().len()
+        };
+        kani::assert(n == ref_len(f), "C03.proto.encode_len");
+        kani::assert(out[0] == f && out[1] == h.proto_opcode, "C03.proto.encode_flags_opcode");
+        kani::assert(
+            out[2] == h.exch_id as u8 && out[3] == (h.exch_id >> 8) as u8,
+            "C03.proto.encode_exch_id"
+        );
+
+        let mut d = any_hdr();
+        let extra: usize = kani::any();
+        kani::assume(extra <= CAP - n);
+        let plain = plain_hdr::PlainHdr::new();
+        let (r, consumed, left) = {
+            let mut pb = ParseBuf::new(&mut out[..n + extra]);
+            let r = d.decrypt_and_decode(DummyCrypto, None, kani::any(), &plain, &mut pb);
+            (r, pb.read_off(), pb.as_slice().len())
+        };
+        kani::assert(r.is_ok(), "C03.proto.decode_of_encoded_ok");
+        kani::assert(consumed == n && left == extra, "C03.proto.decode_consumes_exactly_header");
+        kani::assert(d.exch_flags.bits() == f, "C03.proto.rt_flags");
+        kani::assert(
+            d.exch_id == h.exch_id && d.proto_id == h.proto_id && d.proto_opcode == h.proto_opcode,
+            "C03.proto.rt_fixed_fields"
+        );
+        kani::assert(d.get_vendor() == h.get_vendor(), "C03.proto.rt_vendor");
+        kani::assert(d.get_ack() == h.get_ack(), "C03.proto.rt_ack");
+        kani::assert(
+            d.is_initiator() == h.is_initiator() && d.is_reliable() == h.is_reliable() && d.is_security_ext() == h.is_security_ext(),
+            "C03.proto.rt_flag_getters"
+        );
+        kani::assert(h.get_vendor().is_some() == (f & 0x10 != 0), "C03.proto.vendor_present_iff_flag");
+        kani::assert(h.get_ack().is_some() == (f & 0x02 != 0), "C03.proto.ack_present_iff_flag");
+
+        kani::cover!(f == 0, "no optional field");
+        kani::cover!(f == 0x1f, "all flags");
+        kani::cover!(f & 0x12 == 0x10, "vendor only");
+        kani::cover!(f & 0x12 == 0x02, "ack only");
+        kani::cover!(extra > 0, "payload follows");
+    }
+
+    /// The decoder is total on arbitrary (plain text) bytes: never panics, accepts exactly the
+    /// strings with declared flag bits that are long enough, and re-encoding what it decoded
+    /// reproduces the consumed bytes.
+    // TIER: quick
+    // KIND: bounded (input length <= 16 bytes; the decoder reads at most 12)
+    #[kani::proof]
+    fn c03_proto_hdr_decode_total() {
+        const CAP: usize = ProtoHdr::MAX_LEN + 4;
+        let mut bytes: [u8; CAP] = kani::any();
+        let orig = bytes;
+        let len: usize = kani::any();
+        kani::assume(len <= CAP);
+
+        let mut d = any_hdr();
+        let plain = plain_hdr::PlainHdr::new();
+        let (r, consumed) = {
+            let mut pb = ParseBuf::new(&mut bytes[..len]);
+            let r = d.decrypt_and_decode(DummyCrypto, None, kani::any(), &plain, &mut pb);
+            (r, pb.read_off())
+        };
+
+        let expect_ok = len >= 6 && orig[0] & !EXCH_FLAGS_VALID == 0 && len >= ref_len(orig[0]);
+        kani::assert(r.is_ok() == expect_ok, "C03.proto.decode_ok_iff_wellformed");
+        kani::assert(bytes == orig, "C03.proto.decode_without_key_does_not_write");
+        if r.is_ok() {
+            kani::assert(consumed == ref_len(orig[0]), "C03.proto.decode_consumed_len");
+            kani::assert(d.exch_flags.bits() == orig[0] && d.proto_opcode == orig[1], "C03.proto.decode_flags_opcode");
+            let mut out = [0u8; ProtoHdr::MAX_LEN];
+            let n = {
+                let mut wb = WriteBuf::new(&mut out);
+                let re = d.encode(&mut wb);
+                kani::assert(re.is_ok(), "C03.proto.reencode_ok");
+                wb.as_slice().len()
+            };
+            kani::assert(n == consumed, "C03.proto.reencode_len");
+            let i: usize = kani::any();
+            if i < n {
+                kani::assert(out[i] == orig[i], "C03.proto.reencode_is_received_bytes");
+            }
+        }
+
+        kani::cover!(r.is_ok() && consumed == 12, "longest header");
+        kani::cover!(r.is_ok() && consumed == 6, "shortest header");
+        kani::cover!(r.is_err() && len >= 6 && orig[0] & !EXCH_FLAGS_VALID == 0, "truncated optional field");
+        kani::cover!(r.is_err() && len >= 6 && orig[0] & !EXCH_FLAGS_VALID != 0, "undeclared flag bit");
+    }
+
+    /// Nonce = security flags ‖ counter ‖ node id, and the map is injective.
+    // TIER: quick
+    // KIND: complete
+    #[kani::proof]
+    fn c03_nonce_layout_injective() {
+        let (f1, c1, n1): (u8, u32, u64) = (kani::any(), kani::any(), kani::any());
+        let (f2, c2, n2): (u8, u32, u64) = (kani::any(), kani::any(), kani::any());
+
+        let mut iv1 = crypto::AEAD_NONCE_ZEROED;
+        let mut iv2 = crypto::AEAD_NONCE_ZEROED;
+        let r1 = get_iv(f1, c1, n1, &mut iv1);
+        let r2 = get_iv(f2, c2, n2, &mut iv2);
+
+        kani::assert(r1.is_ok() && r2.is_ok(), "C03.nonce.total");
+        kani::assert(*iv1.access() == ref_nonce(f1, c1, n1), "C03.nonce.layout");
+        kani::assert(
+            (*iv1.access() == *iv2.access()) == (f1 == f2 && c1 == c2 && n1 == n2),
+            "C03.nonce.injective"
+        );
+        kani::assert(AEAD_NONCE_LEN == 13, "C03.nonce.len_13");
+
+        kani::cover!(*iv1.access() == *iv2.access(), "equal nonces");
+        kani::cover!(f1 == f2 && c1 == c2 && n1 != n2, "differs in node only");
+        kani::cover!(f1 != f2 && c1 == c2 && n1 == n2, "differs in flags only");
+    }
+
+    const HDR_CAP: usize = plain_hdr::PlainHdr::MAX_LEN;
+    const BUF_CAP: usize = HDR_CAP + 20;
+
+    /// `decrypt_in_place`: for every already-parsed prefix length `h <= PlainHdr::MAX_LEN` and
+    /// every rest, the primitive is called exactly once with (the key given, the reference
+    /// nonce, AAD == the parsed prefix bit for bit, data == the whole rest); its verdict decides
+    /// the result; on success exactly the tag is cut off the end; the prefix is never written.
+    // TIER: thorough
+    // KIND: bounded (datagram <= 46 bytes: header prefix <= 26, cipher text + tag <= 20)
+    #[kani::proof]
+    fn c03_decrypt_in_place_hands_key_nonce_aad() {
+        let mut bytes: [u8; BUF_CAP] = kani::any();
+        let orig = bytes;
+        let len: usize = kani::any();
+        let h: usize = kani::any();
+        kani::assume(len <= BUF_CAP && h <= len);
+        // precondition (established by PlainHdr::decode, see C03.plain.decode_consumed_bound):
+        kani::assume(h <= HDR_CAP);
+
+        let key: [u8; AEAD_CANON_KEY_LEN] = kani::any();
+        let sec_flags: u8 = kani::any();
+        let ctr: u32 = kani::any();
+        let node: u64 = kani::any();
+        let mock = MockCrypto::new(kani::any(), true, 0);
+
+        let (r, left_after, off_after) = {
+            let mut pb = ParseBuf::new(&mut bytes[..len]);
+            // put the cursor behind an `h`-byte prefix, the way the header decoder leaves it
+            let adv = pb.parse_head_with(h, |_| ());
+            kani::assert(adv.is_ok(), "C03.decrypt.harness_cursor_set");
+            let r = decrypt_in_place(&mock, crypto::CanonAeadKeyRef::new(&key), sec_flags, ctr, node, &mut pb);
+            (r, pb.as_slice().len(), pb.read_off())
+        };
+
+        kani::assert(mock.calls.get() == 1, "C03.decrypt.primitive_called_exactly_once");
+        let call = mock.last.get().unwrap();
+        kani::assert(!call.encrypt, "C03.decrypt.is_decrypt");
+        kani::assert(call.key == key, "C03.decrypt.key_is_the_given_key");
+        kani::assert(call.nonce == ref_nonce(sec_flags, ctr, node), "C03.decrypt.nonce_is_flags_ctr_node");
+        kani::assert(call.aad_len == h, "C03.decrypt.aad_len_is_parsed_prefix");
+        let i: usize = kani::any();
+        if i < h {
+            kani::assert(call.aad[i] == orig[i], "C03.decrypt.aad_is_parsed_prefix_bit_for_bit");
+        }
+        kani::assert(call.data_len == len - h, "C03.decrypt.data_is_whole_rest");
+        let j: usize = kani::any();
+        if j < len - h {
+            kani::assert(call.data[j] == orig[h + j], "C03.decrypt.data_bytes");
+        }
+
+        kani::assert(r.is_ok() == (mock.aead_ok && len - h >= AEAD_TAG_LEN), "C03.decrypt.result_is_primitive_verdict");
+        kani::assert(!mock.aead_ok || len - h < AEAD_TAG_LEN || r.is_ok(), "C03.decrypt.ok_when_primitive_ok");
+        kani::assert(mock.aead_ok || r.is_err(), "C03.decrypt.err_when_primitive_err");
+        if r.is_ok() {
+            kani::assert(off_after == h && left_after == len - h - AEAD_TAG_LEN, "C03.decrypt.tag_cut_off");
+        }
+        let k: usize = kani::any();
+        if k < h {
+            kani::assert(bytes[k] == orig[k], "C03.decrypt.prefix_not_written");
+        }
+
+        kani::cover!(r.is_ok() && h == 24, "success with the longest header");
+        kani::cover!(r.is_ok() && len - h == AEAD_TAG_LEN, "empty plain text");
+        kani::cover!(r.is_err() && mock.aead_ok, "shorter than a tag");
+        kani::cover!(r.is_err() && !mock.aead_ok && len - h >= AEAD_TAG_LEN, "authentication failure");
+        kani::cover!(h == HDR_CAP, "prefix of MAX_LEN");
+    }
+
+    /// `encrypt_in_place`: appends tag space, calls the primitive exactly once with (key,
+    /// reference nonce, AAD == the given header bytes, data == payload ‖ tag space,
+    /// data_len == payload length); `Err` of the primitive is `Err`.
+    // TIER: quick
+    // KIND: bounded (AAD <= 26 bytes, plain text <= 20 bytes)
+    #[kani::proof]
+    fn c03_encrypt_in_place_hands_key_nonce_aad() {
+        const PT_CAP: usize = 20;
+        let mut buf = [0u8; PT_CAP + AEAD_TAG_LEN + 2];
+        let pt: [u8; PT_CAP] = kani::any();
+        let pt_len: usize = kani::any();
+        kani::assume(pt_len <= PT_CAP);
+        let aad_bytes: [u8; HDR_CAP] = kani::any();
+        let aad_len: usize = kani::any();
+        kani::assume(aad_len <= HDR_CAP);
+
+        let key: [u8; AEAD_CANON_KEY_LEN] = kani::any();
+        let sec_flags: u8 = kani::any();
+        let ctr: u32 = kani::any();
+        let node: u64 = kani::any();
+        let mock = MockCrypto::new(kani::any(), true, 0);
+
+        let (r, out_len) = {
+            let mut wb = WriteBuf::new(&mut buf);
+            let _ = wb.append(&pt[..pt_len]);
+            let r = encrypt_in_place(
+                &mock,
+                crypto::CanonAeadKeyRef::new(&key),
+                sec_flags,
+                ctr,
+                node,
+                &aad_bytes[..aad_len],
+                &mut wb,
+            );
+            (r, wb.as_slice().len())
+        };
+
+        kani::assert(mock.calls.get() == 1, "C03.encrypt.primitive_called_exactly_once");
+        let call = mock.last.get().unwrap();
+        kani::assert(call.encrypt, "C03.encrypt.is_encrypt");
+        kani::assert(call.key == key, "C03.encrypt.key_is_the_given_key");
+        kani::assert(call.nonce == ref_nonce(sec_flags, ctr, node), "C03.encrypt.nonce_is_flags_ctr_node");
+        kani::assert(call.aad_len == aad_len, "C03.encrypt.aad_len");
+        let i: usize = kani::any();
+        if i < aad_len {
+            kani::assert(call.aad[i] == aad_bytes[i], "C03.encrypt.aad_is_header_bytes_bit_for_bit");
+        }
+        kani::assert(call.pt_len == pt_len && call.data_len == pt_len + AEAD_TAG_LEN, "C03.encrypt.data_is_payload_plus_tag_space");
+        let j: usize = kani::any();
+        if j < pt_len {
+            kani::assert(call.data[j] == pt[j], "C03.encrypt.plain_text_bytes");
+        }
+        kani::assert(r.is_ok() == mock.aead_ok, "C03.encrypt.result_is_primitive_verdict");
+        kani::assert(r.is_err() || out_len == pt_len + AEAD_TAG_LEN, "C03.encrypt.output_len");
+
+        kani::cover!(r.is_ok() && pt_len == 0, "empty payload");
+        kani::cover!(r.is_ok() && pt_len == PT_CAP && aad_len == 24, "longest");
+        kani::cover!(r.is_err(), "primitive failure");
+    }
+}
